@@ -15,6 +15,9 @@ Bound  == {V(0, 1), V(1, 2), V(-1, 2), V(3, 2), V(-3, 2), V(5, 2), V(-5, 2), V(1
            V(1000000001, 2), V(-1000000001, 2), V(1, 1048576), V(-1, 1048576)}
 Small  == {V(0, 1), V(1, 2), V(-1, 2), V(3, 2), V(-5, 2), V(1, 1), V(2, 1), V(-3, 1)}
 Tiny4  == {V(-5, 2), V(-1, 2), V(1, 2), V(3, 2)}
+Clamp5 == {V(-5, 2), V(-1, 2), V(1, 2), V(3, 2), V(3, 1)}      \* every ordering of MIN, VAL, MAX occurs, also MIN > MAX
+ULen   == {"", "px", "in", "cm"}
+Step6  == {V(-7, 2), V(-1, 1), V(1, 2), V(5, 4), V(3, 1), V(7, 1)}
 UAll   == {"", "px", "in", "em", "%", "deg"}
 USome  == {"", "px", "in", "em"}
 N(v, u) == Num(v[1], v[2], u)
@@ -51,18 +54,21 @@ Calls(fn) ==
     [] fn = "percentage" -> {<<a>> : a \in Nums(Bound, {"", "px", "%"}) \cup Specials("")}
     [] fn = "div" -> {<<a, b>> : a \in Nums(Small, USome), b \in Nums(Small, USome)}
     [] fn \in {"min", "max"} ->
-         {<<a, b>> : a \in Nums(Small, USome), b \in Nums(Small, USome)}
+         {<<a, b>> : a \in Nums(Small, USome \cup {"cm"}), b \in Nums(Small, USome \cup {"cm"})}
          \cup {<<a, b, c>> : a \in Nums(Tiny4, USome), b \in Nums(Tiny4, {"", "px", "in"}), c \in Nums(Tiny4, {"", "px", "em"})}
     [] fn = "clamp" ->
-         {<<a, b, c>> : a \in Nums(Tiny4, {"", "px", "in"}), b \in Nums(Tiny4, USome), c \in Nums(Tiny4, {"", "px", "in"})}
+         {<<a, b, c>> : a \in Nums(Clamp5, ULen), b \in Nums(Clamp5, ULen \cup {"em"}), c \in Nums(Clamp5, ULen)}
+    [] fn \in StepFns ->
+         {<<a, b>> : a \in Nums(Step6, ULen \cup {"em"}), b \in Nums(Step6 \cup {V(0, 1)}, ULen)}
     [] OTHER -> TableArgs(fn)
 
-AllFns == {"abs", "ceil", "floor", "round", "percentage", "div", "min", "max", "clamp",
-           "sin", "cos", "tan", "asin", "acos", "atan", "atan2", "sqrt", "pow", "log", "exp", "hypot"}
+MathFns == {"abs", "ceil", "floor", "round", "percentage", "div", "min", "max", "clamp",
+            "sin", "cos", "tan", "asin", "acos", "atan", "atan2", "sqrt", "pow", "log", "exp", "hypot"}
 
-Init == call = [fn |-> "none", args |-> <<>>] /\ phase = "fn"
+Init == call = [ns |-> "math", fn |-> "none", args |-> <<>>] /\ phase = "fn"
 PickFn == /\ phase = "fn"
-          /\ \E f \in AllFns : call' = [fn |-> f, args |-> <<>>]
+          /\ \/ \E f \in MathFns : call' = [ns |-> "math", fn |-> f, args |-> <<>>]
+             \/ \E f \in CssFns : call' = [ns |-> "css", fn |-> f, args |-> <<>>]
           /\ phase' = "args"
 PickArgs == /\ phase = "args"
             /\ \E a \in Calls(call.fn) : call' = [call EXCEPT !.args = a]
@@ -80,8 +86,10 @@ LawMinMax == Done /\ call.fn = "min" =>
                    hi == Apply("max", call.args) IN
                (lo.k = "num" /\ hi.k = "num") => ~Less(ToBase(hi), ToBase(lo))
 (* the observable is well formed *)
-LawObs == Done => LET o == Expect(call.fn, call.args) IN o.fp >= 0 /\ o.fp < 1000000 /\ o.ip >= 0
+LawObs == Done => LET o == Expect(call.ns, call.fn, call.args) IN o.fp >= 0 /\ o.fp < 1000000 /\ o.ip >= 0
+LawStep  == Done /\ call.fn \in StepFns => StepLaws(call.fn, call.args[1], call.args[2])
+LawClamp == Done /\ call.fn = "clamp" => ClampLaw(call.args)
 
-Emit == (Done /\ Expect(call.fn, call.args).k # "undef") =>
-          PrintT(<<"VEC", ToJson([fn |-> call.fn, args |-> call.args, expect |-> Expect(call.fn, call.args)])>>)
+Emit == (Done /\ Expect(call.ns, call.fn, call.args).k # "undef") =>
+          PrintT(<<"VEC", ToJson([ns |-> call.ns, fn |-> call.fn, args |-> call.args, expect |-> Expect(call.ns, call.fn, call.args)])>>)
 =============================================================================
